@@ -572,92 +572,92 @@ package mq
 //@   requires specConnectOK(p.flags, p.will)
 //@   assigns b[i:len(b)]
 //@   ensures result >= i + 2
-//@   ensures i < len(b) && result <= len(b) ==> b[i] == byte(p.fixed)                      #C16 #C02
+//@   ensures i < len(b) ==> b[i] == byte(p.fixed)                                          #C16 #C02
 
 //@ func (*ConnAck).fill
 //@   requires 0 <= i
 //@   assigns b[i:len(b)]
 //@   ensures result >= i + 2
-//@   ensures i < len(b) && result <= len(b) ==> b[i] == byte(p.fixed)                      #C16 #C02
+//@   ensures i < len(b) ==> b[i] == byte(p.fixed)                                          #C16 #C02
 
 //@ func (*Publish).fill
 //@   requires 0 <= i
 //@   requires (p.fixed & 240) == 48                                                    #C02
 //@   assigns b[i:len(b)]
 //@   ensures result >= i + 2
-//@   ensures i < len(b) && result <= len(b) ==> b[i] == byte(p.fixed)                      #C16 #C02
+//@   ensures i < len(b) ==> b[i] == byte(p.fixed)                                          #C16 #C02
 
 //@ func (*PubAck).fill
 //@   requires 0 <= i
 //@   assigns b[i:len(b)]
 //@   ensures result >= i + 2
-//@   ensures i < len(b) && result <= len(b) ==> b[i] == byte(p.fixed)                      #C16 #C02
+//@   ensures i < len(b) ==> b[i] == byte(p.fixed)                                          #C16 #C02
 
 //@ func (*PubRec).fill
 //@   requires 0 <= i
 //@   assigns b[i:len(b)]
 //@   ensures result >= i + 2
-//@   ensures i < len(b) && result <= len(b) ==> b[i] == byte(p.fixed)                      #C16 #C02
+//@   ensures i < len(b) ==> b[i] == byte(p.fixed)                                          #C16 #C02
 
 //@ func (*PubRel).fill
 //@   requires 0 <= i
 //@   assigns b[i:len(b)]
 //@   ensures result >= i + 2
-//@   ensures i < len(b) && result <= len(b) ==> b[i] == byte(p.fixed)                      #C16 #C02
+//@   ensures i < len(b) ==> b[i] == byte(p.fixed)                                          #C16 #C02
 
 //@ func (*PubComp).fill
 //@   requires 0 <= i
 //@   assigns b[i:len(b)]
 //@   ensures result >= i + 2
-//@   ensures i < len(b) && result <= len(b) ==> b[i] == byte(p.fixed)                      #C16 #C02
+//@   ensures i < len(b) ==> b[i] == byte(p.fixed)                                          #C16 #C02
 
 //@ func (*Subscribe).fill
 //@   requires 0 <= i
 //@   assigns b[i:len(b)]
 //@   ensures result >= i + 2
-//@   ensures i < len(b) && result <= len(b) ==> b[i] == byte(p.fixed)                      #C16 #C02
+//@   ensures i < len(b) ==> b[i] == byte(p.fixed)                                          #C16 #C02
 
 //@ func (*SubAck).fill
 //@   requires 0 <= i
 //@   assigns b[i:len(b)]
 //@   ensures result >= i + 2
-//@   ensures i < len(b) && result <= len(b) ==> b[i] == byte(p.fixed)                      #C16 #C02
+//@   ensures i < len(b) ==> b[i] == byte(p.fixed)                                          #C16 #C02
 
 //@ func (*Unsubscribe).fill
 //@   requires 0 <= i
 //@   assigns b[i:len(b)]
 //@   ensures result >= i + 2
-//@   ensures i < len(b) && result <= len(b) ==> b[i] == byte(p.fixed)                      #C16 #C02
+//@   ensures i < len(b) ==> b[i] == byte(p.fixed)                                          #C16 #C02
 
 //@ func (*UnsubAck).fill
 //@   requires 0 <= i
 //@   assigns b[i:len(b)]
 //@   ensures result >= i + 2
-//@   ensures i < len(b) && result <= len(b) ==> b[i] == byte(p.fixed)                      #C16 #C02
+//@   ensures i < len(b) ==> b[i] == byte(p.fixed)                                          #C16 #C02
 
 //@ func (*PingReq).fill
 //@   requires 0 <= i
 //@   assigns b[i:len(b)]
 //@   ensures result >= i + 2
-//@   ensures i < len(b) && result <= len(b) ==> b[i] == byte(p.fixed)                      #C16 #C02
+//@   ensures i < len(b) ==> b[i] == byte(p.fixed)                                          #C16 #C02
 
 //@ func (*PingResp).fill
 //@   requires 0 <= i
 //@   assigns b[i:len(b)]
 //@   ensures result >= i + 2
-//@   ensures i < len(b) && result <= len(b) ==> b[i] == byte(p.fixed)                      #C16 #C02
+//@   ensures i < len(b) ==> b[i] == byte(p.fixed)                                          #C16 #C02
 
 //@ func (*Disconnect).fill
 //@   requires 0 <= i
 //@   assigns b[i:len(b)]
 //@   ensures result >= i + 2
-//@   ensures i < len(b) && result <= len(b) ==> b[i] == byte(p.fixed)                      #C16 #C02
+//@   ensures i < len(b) ==> b[i] == byte(p.fixed)                                          #C16 #C02
 
 //@ func (*Auth).fill
 //@   requires 0 <= i
 //@   assigns b[i:len(b)]
 //@   ensures result >= i + 2
-//@   ensures i < len(b) && result <= len(b) ==> b[i] == byte(p.fixed)                      #C16 #C02
+//@   ensures i < len(b) ==> b[i] == byte(p.fixed)                                          #C16 #C02
 
 //@ func (*Publish).QoS
 //@   pure
@@ -1046,76 +1046,91 @@ package mq
 
 //@ func (*Connect).WriteTo
 //@   ensures $writes == old($writes) + 1                                                    #C10
+//@   ensures $wlen > 0 ==> $w0 == int(self.fixed)                                          #C16
 //@   ensures $wlen == self.fill(_LEN, 0)                                                    #C10
 //@   ensures result0 == int64($wn) && result1 == werr()                                     #C10
 
 //@ func (*ConnAck).WriteTo
 //@   ensures $writes == old($writes) + 1                                                    #C10
+//@   ensures $wlen > 0 ==> $w0 == int(self.fixed)                                          #C16
 //@   ensures $wlen == self.fill(_LEN, 0)                                                    #C10
 //@   ensures result0 == int64($wn) && result1 == werr()                                     #C10
 
 //@ func (*Publish).WriteTo
 //@   ensures $writes == old($writes) + 1                                                    #C10
+//@   ensures $wlen > 0 ==> $w0 == int(self.fixed)                                          #C16
 //@   ensures $wlen == self.fill(_LEN, 0)                                                    #C10
 //@   ensures result0 == int64($wn) && result1 == werr()                                     #C10
 
 //@ func (*PubAck).WriteTo
 //@   ensures $writes == old($writes) + 1                                                    #C10
+//@   ensures $wlen > 0 ==> $w0 == int(self.fixed)                                          #C16
 //@   ensures $wlen == self.fill(_LEN, 0)                                                    #C10
 //@   ensures result0 == int64($wn) && result1 == werr()                                     #C10
 
 //@ func (*PubRec).WriteTo
 //@   ensures $writes == old($writes) + 1                                                    #C10
+//@   ensures $wlen > 0 ==> $w0 == int(self.fixed)                                          #C16
 //@   ensures $wlen == self.fill(_LEN, 0)                                                    #C10
 //@   ensures result0 == int64($wn) && result1 == werr()                                     #C10
 
 //@ func (*PubRel).WriteTo
 //@   ensures $writes == old($writes) + 1                                                    #C10
+//@   ensures $wlen > 0 ==> $w0 == int(self.fixed)                                          #C16
 //@   ensures $wlen == self.fill(_LEN, 0)                                                    #C10
 //@   ensures result0 == int64($wn) && result1 == werr()                                     #C10
 
 //@ func (*PubComp).WriteTo
 //@   ensures $writes == old($writes) + 1                                                    #C10
+//@   ensures $wlen > 0 ==> $w0 == int(self.fixed)                                          #C16
 //@   ensures $wlen == self.fill(_LEN, 0)                                                    #C10
 //@   ensures result0 == int64($wn) && result1 == werr()                                     #C10
 
 //@ func (*Subscribe).WriteTo
 //@   ensures $writes == old($writes) + 1                                                    #C10
+//@   ensures $wlen > 0 ==> $w0 == int(self.fixed)                                          #C16
 //@   ensures $wlen == self.fill(_LEN, 0)                                                    #C10
 //@   ensures result0 == int64($wn) && result1 == werr()                                     #C10
 
 //@ func (*SubAck).WriteTo
 //@   ensures $writes == old($writes) + 1                                                    #C10
+//@   ensures $wlen > 0 ==> $w0 == int(self.fixed)                                          #C16
 //@   ensures $wlen == self.fill(_LEN, 0)                                                    #C10
 //@   ensures result0 == int64($wn) && result1 == werr()                                     #C10
 
 //@ func (*Unsubscribe).WriteTo
 //@   ensures $writes == old($writes) + 1                                                    #C10
+//@   ensures $wlen > 0 ==> $w0 == int(self.fixed)                                          #C16
 //@   ensures $wlen == self.fill(_LEN, 0)                                                    #C10
 //@   ensures result0 == int64($wn) && result1 == werr()                                     #C10
 
 //@ func (*UnsubAck).WriteTo
 //@   ensures $writes == old($writes) + 1                                                    #C10
+//@   ensures $wlen > 0 ==> $w0 == int(self.fixed)                                          #C16
 //@   ensures $wlen == self.fill(_LEN, 0)                                                    #C10
 //@   ensures result0 == int64($wn) && result1 == werr()                                     #C10
 
 //@ func (*PingReq).WriteTo
 //@   ensures $writes == old($writes) + 1                                                    #C10
+//@   ensures $wlen > 0 ==> $w0 == int(self.fixed)                                          #C16
 //@   ensures $wlen == self.fill(_LEN, 0)                                                    #C10
 //@   ensures result0 == int64($wn) && result1 == werr()                                     #C10
 
 //@ func (*PingResp).WriteTo
 //@   ensures $writes == old($writes) + 1                                                    #C10
+//@   ensures $wlen > 0 ==> $w0 == int(self.fixed)                                          #C16
 //@   ensures $wlen == self.fill(_LEN, 0)                                                    #C10
 //@   ensures result0 == int64($wn) && result1 == werr()                                     #C10
 
 //@ func (*Disconnect).WriteTo
 //@   ensures $writes == old($writes) + 1                                                    #C10
+//@   ensures $wlen > 0 ==> $w0 == int(self.fixed)                                          #C16
 //@   ensures $wlen == self.fill(_LEN, 0)                                                    #C10
 //@   ensures result0 == int64($wn) && result1 == werr()                                     #C10
 
 //@ func (*Auth).WriteTo
 //@   ensures $writes == old($writes) + 1                                                    #C10
+//@   ensures $wlen > 0 ==> $w0 == int(self.fixed)                                          #C16
 //@   ensures $wlen == self.fill(_LEN, 0)                                                    #C10
 //@   ensures result0 == int64($wn) && result1 == werr()                                     #C10
 
